@@ -423,8 +423,8 @@ func runC18Sentinel(c *Case, out func(string)) {
 func genC18(w *bufio.Writer, seed int64, n int, tier string) {
 	r := rand.New(rand.NewSource(seed*6151 + 18))
 	for ci := 0; ci < n; ci++ {
-		if ci%50 == 49 {
-			fmt.Fprintf(w, "case c18-%d-%d mode=sentinel n=%d dir=%s\nend\n", seed, ci, 15000+r.Intn(15000), []string{"up", "down"}[r.Intn(2)])
+		if ci%20 == 19 {
+			fmt.Fprintf(w, "case c18-%d-%d mode=sentinel n=%d dir=%s\nend\n", seed, ci, 30000+r.Intn(20000), []string{"up", "up", "up", "down"}[r.Intn(4)])
 			continue
 		}
 		conc := ci%10 == 9
